@@ -40,6 +40,55 @@ type ckStream struct {
 	chunks []pb.Chunk
 	files  map[string][]byte // base name -> source bytes
 	nMain  int               // number of chunks of the main file
+	streamed bool            // produced by the real rsm.ChunkWriter (on-disk state machine streaming)
+	hsz    int               // streamed: length of the marshalled header inside the header block
+}
+
+// ckSink collects what the real rsm.ChunkWriter hands to the transport
+type ckSink struct {
+	chunks []pb.Chunk
+}
+
+func (k *ckSink) Receive(c pb.Chunk) (bool, bool) { k.chunks = append(k.chunks, c); return true, false }
+func (k *ckSink) Close() error                    { return nil }
+func (k *ckSink) ShardID() uint64                 { return 1 }
+func (k *ckSink) ToReplicaID() uint64             { return 2 }
+
+// a snapshot streamed by an on-disk state machine: the real ChunkWriter produces the chunks
+// (chunk 0 = header block with an effective checksum + first block, one checksummed block per
+// chunk, the tail record, an empty last chunk marked LastChunkCount); there is no source file, the
+// received file must be the concatenation of what was sent.
+func (s *ckSim) mkStreamed(id int, from uint64, index uint64) *ckStream {
+	st := &ckStream{id: id, from: from, index: index, files: map[string][]byte{}, streamed: true}
+	sink := &ckSink{}
+	cw := rsm.NewChunkWriter(sink, rsm.SSMeta{From: from, Index: index, Term: 3, OnDiskIndex: index,
+		Membership: pb.Membership{Addresses: map[uint64]string{1: "a1", 2: "a2", 3: "a3"}}})
+	payload := make([]byte, s.rng.Intn(2600))
+	if s.big {
+		payload = make([]byte, 3<<20+s.rng.Intn(4<<20))
+	}
+	s.rng.Read(payload)
+	all := append(append([]byte{}, rsm.GetEmptyLRUSession()...), payload...)
+	for len(all) > 0 {
+		n := 1 + s.rng.Intn(len(all))
+		if _, err := cw.Write(all[:n]); err != nil {
+			panic(err)
+		}
+		all = all[n:]
+	}
+	if err := cw.Close(); err != nil {
+		panic(err)
+	}
+	var file []byte
+	for i := range sink.chunks {
+		sink.chunks[i].DeploymentId = ckDid
+		file = append(file, sink.chunks[i].Data...)
+	}
+	st.hsz = int(binary.LittleEndian.Uint64(sink.chunks[0].Data))
+	st.files[fmt.Sprintf("snapshot-%016X.gbsnap", index)] = file
+	st.chunks = sink.chunks
+	st.nMain = len(sink.chunks)
+	return st
 }
 
 type ckTracked struct {
@@ -77,6 +126,7 @@ type ckEv struct {
 	Timeout uint64      `json:"timeout"`
 	NMain   []int       `json:"nmain"`
 	Msg     string      `json:"msg,omitempty"`
+	Streamed bool       `json:"streamed"` // chunks produced by the real rsm.ChunkWriter
 }
 
 type ckSim struct {
@@ -252,13 +302,20 @@ func (s *ckSim) deliver(st *ckStream, k int, corrupt string, badDid bool, badVer
 	c := st.chunks[k]
 	c.Data = append([]byte{}, c.Data...)
 	pad := false
+	if len(c.Data) == 0 {
+		corrupt = "" // the empty last chunk of a streamed snapshot: nothing to flip
+	}
 	if corrupt != "" && len(c.Data) > 0 {
 		off := s.rng.Intn(len(c.Data))
 		c.Data[off] ^= byte(1 << uint(s.rng.Intn(8)))
 		if os.Getenv("VERIF_DEBUG") != "" {
 			fmt.Printf("CORRUPT stream %d chunk %d/%d off %d of %d filesize %d fileChunk %d/%d\n", st.id, c.ChunkId, c.ChunkCount, off, len(c.Data), c.FileSize, c.FileChunkId, c.FileChunkCount)
 		}
-		if corrupt == "main" && c.ChunkId == 0 {
+		if st.streamed {
+			// the header block of a streamed snapshot carries a real checksum: only its unused
+			// padding is unprotected
+			pad = corrupt == "main" && c.ChunkId == 0 && off >= 8+st.hsz+4 && off < 1024
+		} else if corrupt == "main" && c.ChunkId == 0 {
 			// the first chunk is the 1 KB header block: length | header | crc32 slot | unused padding.
 			// SnapshotWriter leaves the crc32 slot zero, which makes the validator skip the header
 			// check: no flip in this block is guaranteed to be noticed (known finding)
@@ -277,9 +334,19 @@ func (s *ckSim) deliver(st *ckStream, k int, corrupt string, badDid bool, badVer
 		fmt.Printf("PRE-ADD equal-to-source=%v\n", bytes.Equal(c.Data, st.chunks[k].Data))
 	}
 	ret := s.chunks.Add(c)
-	ev := ckEv{Op: "Add", S: st.id, From: st.from, Index: st.index, Cid: c.ChunkId, Count: c.ChunkCount,
+	cnt := c.ChunkCount
+	if cnt == pb.LastChunkCount {
+		cnt = 0 // not representable for TLC; Last says it
+	}
+	ev := ckEv{Op: "Add", S: st.id, From: st.from, Index: st.index, Cid: c.ChunkId, Count: cnt,
 		Main: !c.HasFileInfo, Last: c.IsLastChunk(), Corrupt: corrupt, BadDid: badDid, BadVer: badVer, Ret: ret, Pad: pad}
+	ev.Streamed = st.streamed
 	if s.notes > before {
+		if st.streamed {
+			s.counts["StreamedFinalized"]++
+		} else {
+			s.counts["FileFinalized"]++
+		}
 		ev.Same = s.finalizedSame(st)
 		// the notification must describe the finalized snapshot
 		ss := s.lastMsg.Requests[0].Snapshot
@@ -307,7 +374,13 @@ func (s *ckSim) run(steps int) {
 	s.chunks.gcTick = gct
 	s.chunks.timeout = to
 	// streams: two senders for one index, one sender for another index
-	s.streams = []*ckStream{s.mkStream(0, 1, 100), s.mkStream(1, 3, 100), s.mkStream(2, 1, 200)}
+	mk := func(id int, from uint64, index uint64) *ckStream {
+		if (s.tid+id)%3 == 0 {
+			return s.mkStreamed(id, from, index)
+		}
+		return s.mkStream(id, from, index)
+	}
+	s.streams = []*ckStream{mk(0, 1, 100), mk(1, 3, 100), mk(2, 1, 200)}
 	nm := []int{}
 	for _, st := range s.streams {
 		nm = append(nm, st.nMain)
